@@ -560,6 +560,25 @@ async fn stream_conn_peer(led: Led, kn: Knobs, server: usize, health: Health, ac
                 }
             }
             in_flight.push((p.id, k, sim::now_ns()));
+            if p.qtype == Some(Rtype::SOA) {
+                // The SOA check a secondary makes ahead of a transfer: answered
+                // with the zone's SOA - now and then twice over (the duplicate
+                // arrives about when the transfer is being asked for).
+                use domain::base::{Serial, Ttl};
+                let req_msg = domain::base::Message::from_octets(body.as_slice()).expect("request");
+                let mut ab = domain::base::MessageBuilder::new_vec().start_answer(&req_msg, Rcode::NOERROR).expect("start_answer");
+                let soa = domain::rdata::Soa::new(dns::name("ns.xfer.sim."), dns::name("admin.xfer.sim."), Serial(7), Ttl::from_secs(1), Ttl::from_secs(2), Ttl::from_secs(3), Ttl::from_secs(4));
+                ab.push((dns::name("xfer.sim."), domain::base::iana::Class::IN, Ttl::from_secs(60), soa)).unwrap();
+                let framed = dns::frame(&ab.into_message().into_octets());
+                let now = sim::now_ns();
+                let d = sim::draw("peer.soa_delay_ms", 4) * 1_000_000;
+                pending.push((now + d, framed.clone(), false));
+                if kn.faulty && sim::chance("peer.soa_answer_twice", 1, 2) {
+                    fault(&led, Scope::Global, "fault.s.dup");
+                    pending.push((now + d + sim::draw("peer.soa_dup_gap_ms", 8) * 1_000_000, framed, false));
+                }
+                continue;
+            }
             if p.qtype == Some(Rtype::AXFR) {
                 // A zone transfer: its messages follow one another a few
                 // milliseconds apart; the id stays taken until the last one.
@@ -1206,6 +1225,13 @@ async fn run(_tier: Tier) {
         exec.spawn("xfer".to_string(), async move {
             use domain::net::client::request::SendRequestMulti;
             sim::sleep_ms(start_ms).await;
+            // (As a secondary does: the SOA first, then the transfer.)
+            if sim::chance("xfer.soa_check_first", 1, 2) {
+                sim::stat("probe.soa_check_ahead_of_the_transfer");
+                let soa_req = RequestMessage::new(dns::mk_query("xfer.sim.", Rtype::SOA, false)).expect("request");
+                let _ = SendRequest::send_request(&xc, soa_req).get_response().await;
+                sim::sync_clock();
+            }
             let req = ReqMulti::new(dns::mk_query("xfer.sim.", Rtype::AXFR, false)).expect("transfer request");
             ev!("transfer request invoke");
             led2.borrow_mut().xfer_start_ns = Some(sim::now_ns());
@@ -1376,6 +1402,10 @@ fn check(led: &Led, kn: &Knobs, total: usize, finished: bool, connect_faults: &[
             for (i, m) in l.xfer_got.iter().enumerate() {
                 if let Some(k) = dns::parse(m).and_then(|p| k_of_qname(&p.qname)) {
                     sim::violation(P, "attribution", "streaming-request-handed-an-answer-to-a-plain-request".to_string(), format!("message {} handed to the streaming request (a zone transfer) is an answer to plain request k={} on the same connection", i + 1, k));
+                    return;
+                }
+                if dns::parse(m).is_some_and(|p| p.qtype.is_some_and(|t| t != Rtype::AXFR)) {
+                    sim::violation(P, "attribution", "streaming-request-handed-an-answer-to-a-plain-request".to_string(), format!("message {} handed to the streaming request (a zone transfer) answers a question of another type: the SOA query made ahead of it on the same connection", i + 1));
                     return;
                 }
             }
